@@ -1249,7 +1249,13 @@ def _drv(drv, lines, timeout):
 
 def report(chk, diffs, fails):
     shown = {}
-    for c, p, why, detail in fails:
+    # different reasons first (a hang by CPU limit, by output limit, in process ...), so that the four reports per kind differ
+    firsts, rest, seen_why = [], [], set()
+    for f in fails:
+        k = (f[0].get("kind"), re.sub(r"[\d.]+", "#", f[2])[:40])
+        (rest if k in seen_why else firsts).append(f)
+        seen_why.add(k)
+    for c, p, why, detail in firsts + rest:
         shown[c.get("kind")] = shown.get(c.get("kind"), 0) + 1
         if shown[c.get("kind")] > 4:                  # at most four reports per kind of case
             continue
@@ -1259,7 +1265,7 @@ def report(chk, diffs, fails):
         rep = {"kind": "property-fails-on-implementation", "part": "guards", "why": why, "case_kind": c.get("kind"), "tag": c.get("tag"), "input": p}
         if p and os.path.exists(p):
             rep["input_hex_prefix"] = open(p, "rb").read()[:300].hex()
-        rep["failing_cases_of_this_kind"] = sum(1 for f in fails if f[0].get("kind") == c.get("kind"))
+        rep["failing_cases_of_this_kind"] = sum(1 for f in fails if f[0].get("kind") == c.get("kind"))     # at most four of them are reported
         if detail:
             rep["argv"] = ["qpdf"] + list(detail[0]); rep["exit"] = detail[1]; rep["stderr_tail"] = detail[2]
         chk.violation(rep, signature=sig)
